@@ -198,7 +198,11 @@ def class_mro(interp, cref):
         try:
             bv = resolve_global(interp, cref.mod, bname)
         except Outside:
-            continue
+            # a base class defined inside a namespace class of the same module (PromptSequencers._PromptSequencer): found by name when unique
+            cands = [n_ for n_ in ast.walk(cref.mod.tree) if isinstance(n_, ast.ClassDef) and n_.name == bname]
+            if len(cands) != 1:
+                continue
+            bv = I.ClassRef(cref.mod, cands[0])
         if isinstance(bv, I.ClassRef):
             for c in class_mro(interp, bv):
                 if all(c.name != o.name for o in out):
